@@ -66,6 +66,10 @@ def cases(tier, seed):
         out.append(('idx', ((3, 2),), ('E', ('a', mm))))
     for shape, mm in [((4,), ((0, 1), (2, 3))), ((3,), ((0, 1), (2, 2))), ((3,), ((0,), (1,), (2,))), ((4,), ((3, -1, 0), (1, 1, 2))), ((2, 4), ((0, 1), (2, 3)))]:
         out.append(('idx', (shape,), (('a', mm),) if len(shape) == 1 else ('E', ('a', mm))))
+    # index arrays of rank >= 2 whose LEADING dimension is 1 (a one-detector pointing array), with and without repeated entries
+    for shape, mm in [((3,), ((0, 2, 2),)), ((3,), ((0, 1, 2),)), ((3,), ((1, -2, 0),)), ((4,), (((0, 1), (1, 3)),)), ((3,), ((2,),))]:
+        out.append(('idx', (shape,), (('a', mm),)))
+        out.append(('idx', ((2,) + shape,), ('E', ('a', mm))))
     for L in range(1, 4 if tier == 'quick' else 5):
         for mk in itertools.product((False, True), repeat=L):
             out.append(('idx', ((L,),), (('m', mk),)))
